@@ -733,6 +733,25 @@ def r02_a(ctx):
                 if isinstance(x, ast.Compare) and isinstance(x.ops[0], ast.NotEq) and isinstance(x.left, ast.Name) \
                         and x.left.id in mode_names and norm(x.comparators[0]) == 'MODE_SPECIAL':
                     sink = isinstance(n.test, ast.BoolOp) and isinstance(n.test.op, ast.And)
+    if not sink:
+        # other spellings (early return for everything that is not \begin outside a definition): the construction of
+        # the named environment is dominated by facts that imply  mode != MODE_SPECIAL
+        from . import rules_reader
+
+        def implies_not_special(t, truth):
+            if isinstance(t, ast.UnaryOp) and isinstance(t.op, ast.Not):
+                return implies_not_special(t.operand, not truth)
+            if isinstance(t, ast.BoolOp):
+                if (isinstance(t.op, ast.And) and truth) or (isinstance(t.op, ast.Or) and not truth):
+                    return any(implies_not_special(v, truth) for v in t.values)
+                return False
+            if isinstance(t, ast.Compare) and len(t.ops) == 1 and isinstance(t.left, ast.Name) and t.left.id in mode_names \
+                    and norm(t.comparators[0]) == 'MODE_SPECIAL':
+                return (isinstance(t.ops[0], ast.NotEq) and truth) or (isinstance(t.ops[0], ast.Eq) and not truth)
+            return False
+        ctors = [n for n in ast.walk(d.node) if isinstance(n, ast.Call) and isinstance(n.func, ast.Name) and n.func.id == 'TexNamedEnv']
+        if ctors and all(any(implies_not_special(t, tr) for t, tr in rules_reader._guards_dominating(d, c)) for c in ctors):
+            sink = True
     rr.ob(sink, {'begin_branch_guard': 'mode != MODE_SPECIAL'})
     if not sink:
         rr.fail(Finding('R02.a', 'reader', d.qual, 'begin branch of the dispatcher', 'the \\begin branch of the '
@@ -769,6 +788,9 @@ def r02_b(ctx):
                 and n.func.func.id == 'make_read_peek':
             peeked = True
     ok = {'item', 'end'} <= stops
+    if not stops and not peeked:
+        raise AnalysisError('read_item: neither a stop set of command names nor a command look-ahead is found in the item '
+                            'loop (the loop has another shape): outside the decidable subset of R02.b')
     rr.ob(ok, {'command_stop_set': sorted(stops)})
     if not ok:
         rr.fail(Finding('R02.b', 'reader', fd.qual, 'item stop set %s' % sorted(stops), 'an item body does not stop at %s: '
